@@ -38,7 +38,7 @@ def run(tier):
     bres = build(THEOREMS)
     R = rng('C19', 'alias')
     tmp = tempfile.mkdtemp(prefix='verif_c19_')
-    n = 80 if tier == 'quick' else 800
+    n = 250 if tier == 'quick' else 2000
     try:
         for i in range(n):
             mode = R.choice(['plain', 'plain', 'fastpath', 'hdf5', 'fail-rows', 'fail-missing', 'window'])
